@@ -468,9 +468,7 @@ func (w *v6world) msg(c *v6client, name string, mt d6.MessageType, sid d6.DUID, 
 			if len(w.m.declined) > before {
 				w.m.count("declines_of_own_value", 1)
 			}
-			// the server may also drop the client's prefix on DECLINE (it releases everything): nothing is required either way
-			w.m.del(w.m.bound, c.name, "pd")
-			w.m.del(w.m.offered, c.name, "pd")
+			// a DECLINE names addresses only: a delegated prefix the client holds stays bound
 		case rep.MessageType == d6.MessageTypeReply:
 			for _, k := range w.kinds() {
 				if v, ok := got[k]; ok {
@@ -506,6 +504,8 @@ func (w *v6world) step(name string, d time.Duration) bool {
 	w.m.log("%s", name)
 	time.Sleep(d)
 	synctest.Wait()
+	now := time.Now()
+	w.m.sweep(now.Add(1), now) // DHCPv6 has no tick: a binding may be reclaimed as soon as its valid lifetime is over
 	w.m.count("time_steps", 1)
 	w.checkState("dhcpv6.Server")
 	return true
@@ -515,7 +515,7 @@ func (w *v6world) step(name string, d time.Duration) bool {
 func (w *v6world) finish() {
 	w.step("T:final+61s", cleanupGap)
 	now := time.Now()
-	w.m.sweep(now, now)
+	w.m.sweep(now.Add(1), now)
 	w.m.endStep()
 	obtained := 0
 	for i := 0; i < max(w.nAddr, w.nPfx)+2 && i < 40; i++ {
